@@ -520,13 +520,34 @@ func reifyMergeValue(
 		if err != nil {
 			return reflect.Value{}, raiseExpectedObject(opts.opts, val)
 		}
+		if !old.CanAddr() {
+			// a struct held by value in an interface is not addressable: merge
+			// into a copy, which the caller stores in place of the old value
+			tmp := reflect.New(old.Type()).Elem()
+			tmp.Set(old)
+			if err := reifyStruct(opts.opts, tmp, sub); err != nil {
+				return reflect.Value{}, err
+			}
+			return tmp, nil
+		}
 		return oldValue, reifyStruct(opts.opts, old, sub)
 
 	case reflect.Array:
+		if !old.CanAddr() {
+			// likewise for an array held by value in an interface
+			tmp := reflect.New(old.Type()).Elem()
+			tmp.Set(old)
+			old = tmp
+		}
 		return reifyArray(opts, old, baseType, val)
 
 	case reflect.Slice:
-		return reifySliceMerge(opts, old, baseType, val)
+		v, err := reifySliceMerge(opts, old, baseType, val)
+		if err != nil || !v.IsValid() {
+			return v, err
+		}
+		// the old value can be a pointer to a slice (element of a map or list)
+		return pointerize(t, baseType, v), nil
 	}
 
 	return reifyPrimitive(opts, val, t, baseType)
